@@ -333,15 +333,18 @@ pub fn run(runner: &mut Runner, bin: &Path, work: &Path, behaviours: Option<&str
         }
     }
     for ci in 0..count {
-        // every sixth scenario: one board whose only fault is a corrupted word (so that nothing else explains a failure)
-        let single = ci % 6 == 5;
+        // every third scenario: one board with exactly one fault kind, all kinds in turn (so that nothing else
+        // explains a failure); the corrupted word (5) twice as often
+        let single = ci % 3 == 2;
+        let kinds = [5u32, 0, 1, 2, 3, 4, 5, 6, 7, 8, 9, 10, 11];
+        let forced = kinds[(ci / 3) as usize % kinds.len()];
         let nboards = if single { 1 } else { rng.gen_range(1..=4usize) };
         let mut ids: Vec<usize> = (1..=4).collect();
         ids.shuffle(&mut rng);
         let mut boards = BTreeMap::new();
         for &b in &ids[..nboards] {
             let bytes = if single {
-                let e = random_entries_with(&mut rng, Some(5));
+                let e = random_entries_with(&mut rng, Some(forced));
                 to_bytes(&mut rng, &e, true)
             } else if rng.gen_bool(0.08) {
                 { let k = rng.gen_range(0..30); random_stream(&mut rng, k, false) }
